@@ -47,6 +47,8 @@ def run_case(case):
                         raise KeyError("user")
                     except KeyError as ex:
                         p.__exit__(type(ex), ex, ex.__traceback__)
+                elif op[1] == "genexit":
+                    p.__exit__(GeneratorExit, GeneratorExit(), None)      # left by closing the generator the block sits in
                 elif op[1] == "explicit":
                     p.deactivate()
                 elif op[1] == "derived":
